@@ -247,8 +247,8 @@ SPECS = {
         "monitors": [("c08-conservation", mon_conservation), ("c08-linearizable", mon_linearizable)],
         "transitions": transitions, "nontrivial": nontrivial, "model_applies": model_applies, "canon": canon_step, "canon_protocol": canon_protocol,
         "all_transitions": ["kind-token", "kind-aimd", "withdraw-granted", "withdraw-refused", "deposit", "skip", "preempted-inside-fetch-update"],
-        "model_modules": ["TR.Model.Budget", "TR.Lemmas.Budget", "TR.Model.BudgetTrace", "TR.Lemmas.BudgetTrace", "TR.Lemmas.BudgetTraceOuts", "TR.Mutants.DepositLoadStore"],
-        "lean_files": ["TR.Model.Budget", "TR.Lemmas.Budget", "TR.Model.BudgetTrace", "TR.Lemmas.BudgetTrace", "TR.Lemmas.BudgetTraceOuts"],
+        "model_modules": ["TR.Model.Budget", "TR.Lemmas.Budget", "TR.Lemmas.BudgetCons", "TR.Model.BudgetTrace", "TR.Lemmas.BudgetTrace", "TR.Lemmas.BudgetTraceOuts", "TR.Mutants.DepositLoadStore"],
+        "lean_files": ["TR.Model.Budget", "TR.Lemmas.Budget", "TR.Lemmas.BudgetCons", "TR.Model.BudgetTrace", "TR.Lemmas.BudgetTrace", "TR.Lemmas.BudgetTraceOuts"],
         "sizes": (500, 20000),
         "rule": "2..4 OS threads running programs of 1..4 try_withdraw/deposit calls on one real budget (token bucket or AIMD) with hooked "
                 "atomics; the baton scheduler grants one atomic operation per schedule entry; random schedules (thorough tier first enumerates "
